@@ -840,14 +840,16 @@ def check_roundtrip(exp, machine, mk, history, codec=None, twin=None):
     """`Cls(markup=json round trip)`: identical markup, identical reactions.  Returns (failures, info)."""
     out = []
     info = {'rebuilt': False, 'markup_equal': False}
-    cls = machine_cls(exp.hier)
+    # rebuilt with the class of the original: the plain markup classes, or the diagram classes derived from them
+    graph = bool(exp.desc.get('graph'))
+    cls = machine_cls(exp.hier, graph)
 
     def bad(what, details):
         out.append((what, details, None))
 
     m2 = None
     try:
-        m2 = cls(markup=json.loads(json.dumps(mk)))
+        m2 = cls(markup=json.loads(json.dumps(mk)), **({'graph_engine': 'mermaid'} if graph else {}))
     except Exception as e:
         bad('roundtrip.import-raises', {'exception': '%s: %s' % (type(e).__name__, e)})
     if m2 is not None:
